@@ -32,7 +32,7 @@ def build_cases(ck: core.Check, rnd: random.Random):
     for it in items2[:n2]:
         add({"src": "items", "items": [it]}, pipe_render.render_module({"items": [it]}))
     # two deviating items per module (pairs of one-slot deviations), seeded sample
-    n_pairs = 300 if ck.quick else 4000
+    n_pairs = 300 if ck.quick else 2500
     for _ in range(n_pairs):
         a, b = rnd.choice(g["items1"]), rnd.choice(g["items1"])
         add({"src": "items", "items": [a, b]}, pipe_render.render_module({"items": [a, b]}))
@@ -42,7 +42,7 @@ def build_cases(ck: core.Check, rnd: random.Random):
     short = [s for s in seqs if len(s) <= 2]
     long3 = [s for s in seqs if len(s) == 3]
     rnd.shuffle(long3)
-    n3 = 300 if ck.quick else 12000
+    n3 = 300 if ck.quick else 8000
     n_regex = 0
     for s in short + long3[:n3]:
         body = pipe_render.pattern_of(g["tokens"], s)
@@ -53,7 +53,7 @@ def build_cases(ck: core.Check, rnd: random.Random):
             add({"src": "regex", "seq": s, "pattern": pat}, pipe_render.render_module({"items": [it]}))
             n_regex += 1
     # code -> spec
-    corpus = pipe_check.corpus_texts(rnd, n_lines=300 if ck.quick else 2443, n_bytes=100 if ck.quick else 1500, n_big=0 if ck.quick else 40, whole=True)
+    corpus = pipe_check.corpus_texts(rnd, n_lines=300 if ck.quick else 2443, n_bytes=100 if ck.quick else 1000, n_big=0 if ck.quick else 40, whole=True)
     for desc, text in corpus:
         add(desc, text)
     counts = {"templates": len(g["templates"]) + 1, "items_dev1": len(g["items1"]), "items_dev2": min(n2, len(items2)), "item_pairs": n_pairs, "regex": n_regex, "corpus": len(corpus), "items_dev2_enumerated": len(items2), "token_seqs_enumerated": len(seqs)}
@@ -63,15 +63,23 @@ def build_cases(ck: core.Check, rnd: random.Random):
 def main() -> int:
     ck = core.Check("C01", "model_checking")
     rnd = random.Random(ck.seed)
-    # M
-    ck.model_check("Pipeline", "MC_Pipeline.cfg", "pipeline design (strict): clauses of C01/C03/C28 on all terminal states", workers=4, timeout=600)
-    if not ck.quick:
-        ck.model_check("Pipeline", "MC_PipelineLoose.cfg", "pipeline contract (any order of passes, skipped stages)", workers=8, timeout=900)
+    # M and G run concurrently (independent TLC jobs)
     rp = pipe_check.replay_case()
+    built = {}
+
+    def build():
+        built["v"] = build_cases(ck, rnd)
+
+    jobs = [lambda: ck.model_check("Pipeline", "MC_Pipeline.cfg", "pipeline design (strict): clauses of C01/C03/C28 on all terminal states", workers=2, timeout=900)]
+    if not ck.quick:
+        jobs.append(lambda: ck.model_check("Pipeline", "MC_PipelineLoose.cfg", "pipeline contract (any order of passes, skipped stages)", workers=8, timeout=1500))
+    if rp is None:
+        jobs.append(build)
+    pipe_check.in_parallel(jobs)
     if rp is not None:
         cases, counts = [dict(rp, desc=rp.get("desc", {"src": "replay"}))], {"replay": 1}
     else:
-        cases, counts = build_cases(ck, rnd)
+        cases, counts = built["v"]
     # R
     traces, meta, installed = pipe_check.run_cases(ck, cases, "harness.run_c01", "c01")
     # V
